@@ -2,8 +2,13 @@
 """Run checks against seeded changes on scratch copies of the repository (outside /repo and /verif).
 usage: seedrun.py <check-id|all-own> <seed-dir-name ...|all> [--tier quick] [--jobs N]
 prints one line per (seed, check): DETECTED / missed, with the time."""
-import os, subprocess, sys, shutil, time, glob, json
+import os, subprocess, sys, shutil, time, glob, json, hashlib
 from concurrent.futures import ThreadPoolExecutor
+
+def rm_build(d):
+    """remove the world executables built for a scratch copy"""
+    shutil.rmtree(os.path.join("/verif/build", hashlib.sha256(os.path.realpath(d).encode()).hexdigest()[:8]), ignore_errors=True)
+
 
 def prep(seed, tag=""):
     d = "/tmp/mut/%s%s" % (seed, tag)
@@ -24,6 +29,7 @@ def run(seed, pid, tier, workers):
         if l.startswith("VIOLATION") and "/fail-" in l:
             try: os.remove(l.split("replay=")[1].strip())
             except OSError: pass
+    rm_build(d)
     shutil.rmtree(d, ignore_errors=True)
     return seed, pid, det, r.returncode, time.time() - t0, (sig[0][:160] if sig else out.strip().splitlines()[-1][:160] if out.strip() else "")
 
